@@ -83,7 +83,7 @@ func c28Transient(c *core.Ctx) {
 	c.Clause("C28.transient", func() {
 		p := c.P
 		spec := bufferLockSpec(p)
-		res := core.RunLockset(p, spec)
+		res := c28RunLockset(p, spec)
 		nReaders, nIns, nRem := 0, 0, 0
 		for fld := range spec.ReadFree {
 			c.Fld(fld)
